@@ -69,6 +69,27 @@ ObsOK(o, F, L, D, P, N, K, TL, TD, M) ==
     \* track_by_id() reports although tracks() skips it - no listed property speaks about that.)
     /\ \A b \in ToSet(o.tbyid) : (b.id \in TL => b.r) /\ (b.id \in TD => ~b.r)
 
+\* The same state as a SECOND connection to the same directory sees it (driver flag conn2: a database object loaded while
+\* the first stays open; some calls go through it).  MultiConn.tla: every connection's view is the shared state at every
+\* call boundary - nothing observable is cached per connection.
+Obs2OK(o, F, L, D, P, N, K, TL, M) ==
+    /\ ToSet(o.all) = L /\ Len(o.all) = Cardinality(L)
+    /\ IF F = "v2" THEN o.roots = K[Root] ELSE ToSet(o.roots) = ChildrenIn(L, P, Root) /\ NoDup(o.roots)
+    /\ {r.id : r \in ToSet(o.cr)} = L /\ Len(o.cr) = Cardinality(L)
+    /\ \A r \in ToSet(o.cr) :
+         /\ r.v = TRUE
+         /\ r.nm = N[r.id]
+         /\ r.par = Opt(P[r.id])
+         /\ IF F = "v2" THEN r.ch = K[r.id] ELSE ToSet(r.ch) = ChildrenIn(L, P, r.id) /\ NoDup(r.ch)
+         /\ ToSet(r.de) = DescIn(L, P, r.id) /\ NoDup(r.de)
+         /\ IF F = "v2" THEN r.tr = M[r.id] ELSE ToSet(r.tr) = ToSet(M[r.id]) /\ NoDup(r.tr)
+    /\ ToSet(o.tracks) = TL /\ Len(o.tracks) = Cardinality(TL)
+    /\ {r.id : r \in ToSet(o.tk)} = TL
+    /\ \A r \in ToSet(o.tk) :
+         /\ r.v = TRUE
+         /\ IF F = "v2" THEN r.in = "unsupported" ELSE ToSet(r.in) = {c \in L : r.id \in ToSet(M[c])} /\ NoDup(r.in)
+    \* a handle of the first connection whose crate the second connection no longer finds is invalid, whoever removed it
+    /\ \A x \in ToSet(o.stale) : x.id \in D /\ x.v = FALSE
 \* Observation bookkeeping (C16): the observation phase issued no write statement, changed no
 \* row, left the raw digest (and the files) as they were, and a repeated observation agreed.
 NoWrite(r) ==
@@ -87,6 +108,7 @@ RawNow(r, TI) ==
 
 -----------------------------------------------------------------------------
 Has(r, f) == f \in DOMAIN r
+Obs2Now(r) == Has(r, "obs2") => Obs2OK(r.obs2, fam', live', dead', par', nm', kids', tlive', mem')
 Faulted(r) == Has(r, "fault") /\ r.fault.fired
 
 Step(r) ==
@@ -132,7 +154,7 @@ TCall ==
        /\ last'.out = r.out
        /\ (r.out = "throw" => r.std)          \* only exceptions derived from std::exception
        /\ (Faulted(r) => r.dsame)            \* ... and the stored tables are byte-identical
-       /\ ObsNow(r)
+       /\ ObsNow(r) /\ Obs2Now(r)
        /\ NoWrite(r)
        /\ tinfo' = IF r.op = "create_track" /\ r.out = "ok"
                    THEN (r.new :> [path |-> r.path, base |-> r.base, ext |-> r.ext]) @@ tinfo
@@ -157,6 +179,7 @@ TReopen ==
        /\ r.exists = TRUE
        /\ r.loaded = r.want
        /\ ObsOK(r.obs, fam', live', {}, par', nm', kids', tlive', {}, mem')   \* no handle survives
+       /\ Obs2Now(r)
        /\ NoWrite(r)
        /\ RawNow(r, tinfo)
     /\ ~probing
@@ -172,7 +195,7 @@ TReset ==
        /\ tlive' = {} /\ tdead' = {} /\ mem' = <<>>
        /\ last' = [op |-> "reset", c |-> 0, p |-> 0, n |-> "", t |-> 0, a |-> 0, out |-> "ok", new |-> 0]
        /\ kf' = ""
-       /\ ObsNow(r)
+       /\ ObsNow(r) /\ Obs2Now(r)
        /\ NoWrite(r)
        /\ tinfo' = <<>>
        /\ RawNow(r, <<>>)
